@@ -213,6 +213,9 @@ def run(res, ctx):
     # the real binary writing report files (fresh vs previously used output directory)
     import props.c06_cli as c06_cli
     c06_cli.run(res, ctx, rng, st)
+    # the writers inside the model (Model/Output.v): what the binary writes is the render model's cells, nothing else
+    import outputmodel
+    outputmodel.check_pass(res, ctx, "C06", rng)
     res.coverage.update({
         "evaluations": st["evaluations"],
         "distinct_nontrivial": st["distinct_nontrivial"],
